@@ -643,8 +643,12 @@ func roundResult(r *big.Rat) (V, *Fault) {
 		return Num{R: r}, nil
 	}
 	e := Exp10(r)
-	if e >= 6145 {
+	if e >= 6200 {
 		return nil, fault(CatNaN, "overflow")
+	}
+	if e >= 6145 {
+		// the decimal type's largest finite value is not pinned exactly
+		return nil, unspec("result at the top end of the decimal range")
 	}
 	if e < -6143 {
 		return nil, unspec("result below the normal decimal128 range")
@@ -786,3 +790,6 @@ func EvalNode(n *Node, cur, root V, env *Env) (V, *Fault) {
 
 // NewEnv extends an environment.
 func NewEnv(parent *Env, vars map[string]V) *Env { return &Env{parent: parent, vars: vars} }
+
+// ExactDec reports whether n is held exactly by a decimal128.
+func ExactDec(n Num) bool { return exactDec(n) }
